@@ -61,3 +61,11 @@ Theorem arnoldi_absolute_clip_refuted : absclip_at false = (true, true).
 Proof. vm_compute. reflexivity. Qed.
 Theorem arnoldi_absolute_clip_repaired : absclip_at true = (false, true).
 Proof. vm_compute. reflexivity. Qed.
+
+(* flag arnoldi_start_dtype_cast: same buffer-dtype cast as lanczos_start_dtype_cast (C14_Witness.v) *)
+Definition astart_cast_bad (cast : bool) : bool :=
+  let v := if cast then cast_real vcplx else vcplx in
+  let s := arnoldi1 (fops 3) (fmv S3) true true true 3 v 2 tol7 in
+  0x1p-2 <? first_col_err (nth 0 (aQ s) []) vcplx.
+Theorem arnoldi_start_dtype_cast_refuted : astart_cast_bad true = true /\ astart_cast_bad false = false.
+Proof. split; vm_compute; reflexivity. Qed.
